@@ -659,7 +659,6 @@ func Shapes2(n int) []func(g *Grammar) *Expr {
 	return all
 }
 
-
 // LayeredLR: one base nonterminal Z with two or three directly left-recursive alternatives (Z -> Z b | Z a | c) sits at
 // the LEFT EDGE of two or three other memoized nonterminals that are declared later and are recursive among themselves,
 // some of them reaching Z through an optional prefix (E -> Z? T | S). Curtailing-parser sets of several parsers then
